@@ -472,8 +472,11 @@ where
         n: u64,
         m: &AssignedBigUint<F>,
     ) -> Result<AssignedBigUint<F>, Error> {
+        // `x^0 % m` is `1 % m` (which is 0 for `m = 1`).
         if n == 0 {
-            return self.assign_fixed_biguint(layouter, BigUint::one());
+            let one = self.assign_fixed_biguint(layouter, BigUint::one())?;
+            let (_, r) = self.div_rem(layouter, &one, m)?;
+            return Ok(r);
         }
 
         // With a single set bit at position 0 no modular multiplication takes
